@@ -47,8 +47,10 @@ def build_all(tmp, only=None):
         root = os.path.join(tmp, vid)
         os.makedirs(root)
         desc = open(p).readline().lstrip("# ").strip()
+        # "[noalarm]": a refactoring outside what the engines can interpret -- exit 2 (cannot decide) is accepted, an alarm is not
+        expect = "noalarm" if desc.startswith("[noalarm]") else "all"
         if V.build_patch_variant(REPO, root, p):
-            out.append((vid, "neutral", "all", root, desc))
+            out.append((vid, "neutral", expect, root, desc))
         else:
             out.append((vid, "skipped", "all", None, desc + " [patch does not apply to the current tree]"))
     for vid, pid, p in V.breaking_patches():
